@@ -11,8 +11,8 @@
    strings (no `bytes` hypothesis is even needed) and all previous receivers.
    The models are those of the tree after the fix: commits recorded in known_findings.json. *)
 From JT.Base Require Import Prelude.
-From JT.Model Require Import Location LocationExt.
-From JT.Proofs Require Import LocationStd Location_proofs LocationExt_proofs.
+From JT.Model Require Import Location LocationExt Total_strings.
+From JT.Proofs Require Import LocationStd Location_proofs LocationExt_proofs Total_strings_proofs.
 
 (* ---- no panic, any byte string, any previous receiver ---- *)
 Theorem C03_location_total : forall body,
@@ -66,6 +66,16 @@ Proof.
   - apply t0801_render_total.
 Qed.
 Print Assumptions C03_location_render.
+
+(* ---- the two String() bodies that loop / index over parsed collections, at index level
+        (Model/Total_strings.v): T0x0704.String's `for i < len(t.Items) { t.Items[i]... }` is the
+        structural renderer above and never fails, for any item list; T0x0200AdditionDetails.String's
+        map lookups and sub-renderers never fail, for any map (parsed or not) ---- *)
+Theorem C03_string_loops :
+  (forall its, t0704_string its = t0704_render its /\ t0704_string its <> Panic) /\
+  (forall m, adds_string m <> Panic).
+Proof. split. intros its. split. apply t0704_string_eq. apply t0704_string_total. exact adds_string_total. Qed.
+Print Assumptions C03_string_loops.
 
 (* ---- the alarm identification: every dialect (any ActiveSafetyType value), any slice ---- *)
 Theorem C03_sign_total : forall r data, exists s, asign_parse r data = Ok s /\ s_dialect s = s_dialect r.
